@@ -19,6 +19,10 @@ func profC09() *RevProfile {
 	p.EntryW = []int{50, 20, 30}
 	p.FetcherW = []int{55, 40, 5}
 	p.Hostile = true
+	// a transport, fetcher or cache that panics has "answered": the call must
+	// still terminate (the panic itself resurfacing on the caller is C17's
+	// subject and is not judged here)
+	p.PanicPct = 5
 	return p
 }
 
@@ -156,9 +160,12 @@ func runC09(t *Tape, st *Stats, tier string) *RunResult {
 	fired := countRevStats(sc, obs, st)
 	rc.anteTrue("C09.R1")
 	for _, co := range obs.Calls {
-		if co.Panicked {
+		if co.Panicked && !(sc.PanicAt != "" && co.PanicVal == obs.PanicToken) {
 			rc.fail("C09.R1", panicSig(co.PanicVal), fmt.Sprintf("caller %d.%d via %s: panic reached the caller: %v", co.World.ID, co.Rep, entryNames[co.World.Entry], co.PanicVal))
 		}
+	}
+	if sc.PanicAt != "" {
+		st.Probes["c09_panicking_component_"+sc.PanicAt]++
 	}
 	sc.evalLiveness(rc, obs, "C09.R3", "C09.R4")
 	rr.Trace = revTrace(sc, obs)
